@@ -40,7 +40,7 @@ def run(prog, tier):
     return R
 
 
-def check_opb(R, prog):
+def _shape_opb(R, prog):
     w = prog.func(OPBW, "to_opb_file")
     fpar = w.params[0]
     stmts = stmts_in(w.node)
@@ -178,6 +178,21 @@ def check_opb(R, prog):
     ok, why = shield_verdict(ast.Constant(value=tmpl.replace("{n}", "0").replace("{m}", "0").replace("{}", "0").replace("{0}", "0").replace("{1}", "0")), "* ", set())
     if ok:
         R.ok("COMMENT-SHIELD", "the spec line itself is a `*` line", w.key)
+
+
+def check_opb(R, prog):
+    from ._shared import with_semantics
+    from . import _writer_fold
+    w = prog.func("cnfgen.utils.opb", "to_opb_file")
+    try:
+        with_semantics(R, P, lambda T: _shape_opb(T, prog), _writer_fold.verdict(prog, "opb"),
+                       "to_opb_file writes `*` comments and one line per constraint with the stored coefficients, literals, relation and degree", w,
+                       rule="WRITER-SEMANTICS", scope=lambda f: (f.function or "").startswith("to_opb_file"))
+    except AnalysisError as e:
+        if _writer_fold.verdict(prog, "opb")[0] is not True:
+            raise
+        R.ok("WRITER-SEMANTICS", "to_opb_file: %s" % _writer_fold.verdict(prog, "opb")[1], w.key)
+        R.unknown("WRITER-SEMANTICS", "to_opb_file shape", w.key, "shape not recognised (%s); the meaning of the fragment was confirmed by folding" % str(e)[:120])
 
 
 def sign_branch(body, lit, coeff, cname=None):
